@@ -165,6 +165,11 @@ Out == IF WellFormed(t)
        ELSE [t |-> t, wf |-> FALSE, lvl |-> lvl]
 Emit == IF DoEmit THEN PrintT(ToJson(Out)) ELSE TRUE
 
+\* every declaration wrapper in the tree (created by the Annot action or supplied in a seed) is true of its operand
+RECURSIVE AnnotsHold(_)
+AnnotsHold(x) == /\ (x.k = "Annot" => Holds(x.p.ann, Denote(x.a[1])))
+                 /\ \A i \in 1..Len(x.a): AnnotsHold(x.a[i])
+AnnotTrue == WellFormed(t) => AnnotsHold(t)
 \* model-level sanity: the shape calculus agrees with the denotation
 ShapeConsistent == WellFormed(t) => LET d == Denote(t) IN <<d.r, d.c>> = ShapeOf(t)
 \* transposing / taking the adjoint twice is the identity on denotations
